@@ -16,12 +16,14 @@ CHECKS = {
             ("R-ALLOC.size", "r_alloc", "run", ("quick", "thorough")),
             ("R-EXTENT.tmp", "r_extent", "run", ("quick", "thorough")),
             ("R-NORM", "r_norm", "run", ("quick", "thorough")),
-            ("R-ALLOC.blockmove", "r_alloc", "run_blockmove", ("quick", "thorough"))],
+            ("R-ALLOC.blockmove", "r_alloc", "run_blockmove", ("quick", "thorough")),
+            ("R-BUFGROW", "r_alloc", "run_bufgrow", ("quick", "thorough"))],
     "C05": [("R-ALIAS", "r_alias", "run", ("quick", "thorough")),
             ("R-CONSTSRC.ir", "r_constsrc", "run", ("quick", "thorough")),
             ("R-OVERLAP.contract", "r_ovcontract", "run", ("quick", "thorough"))],
     "C06": [("R-TABLES.c06", "r_tables", "run_c06", ("quick", "thorough")),
-            ("R-TABIDX.digit", "r_tables", "run_digit_index", ("quick", "thorough"))],
+            ("R-TABIDX.digit", "r_tables", "run_digit_index", ("quick", "thorough")),
+            ("R-BUFGROW", "r_alloc", "run_bufgrow_io", ("quick", "thorough"))],
     "C16": [("R-TABLES.c16", "r_tables", "run_c16", ("quick", "thorough"))],
     "C10": [("R-TABLES.logic", "r_tables", "run_logic", ("quick", "thorough"))],
     "C18": [("R-PRINTF", "r_printf", "run", ("quick", "thorough"))],
@@ -35,7 +37,8 @@ CHECKS = {
     "C17": [("R-STREAM", "r_stream", "run", ("quick", "thorough")),
             ("R-TMP.io", "r_tmp", "run_io", ("quick", "thorough")),
             ("R-ALLOC.io", "r_alloc", "run_io", ("quick", "thorough")),
-            ("R-TABIDX.digit", "r_tables", "run_digit_index", ("quick", "thorough"))],
+            ("R-TABIDX.digit", "r_tables", "run_digit_index", ("quick", "thorough")),
+            ("R-BUFGROW", "r_alloc", "run_bufgrow_io", ("quick", "thorough"))],
     "C14": [("R-PURE", "r_assert", "run_pure", ("quick", "thorough")),
             ("R-CONSTASSERT", "r_assert", "run_constassert", ("quick", "thorough")),
             ("R-TMP.modes", "r_tmp", "run_modes", ("quick", "thorough")),
@@ -75,6 +78,7 @@ RULES = {
     "R-OVERLAP.contract": ("r_ovcontract", "run"),
     "R-ALLOC.blockmove": ("r_alloc", "run_blockmove"),
     "R-ABI.state": ("r_abi", "run_state"),
+    "R-BUFGROW": ("r_alloc", "run_bufgrow"),
 }
 
 EXPLANATION = {
@@ -217,6 +221,9 @@ ASSUMPTIONS = {
                            "-DWANT_ASSERT=1 export of the built units and every mpn/generic/*.c on each run",
                            "only call sites passing two parameters that are unmodified on every path from the entry are judged"],
     "R-ABI.state": ["sections are judged by name (writable = not .text / .rodata* / .data.rel.ro* / metadata), stores by their addressing mode"],
+    "R-BUFGROW": ["a buffer is recognised by p = allocate (A) / reallocate (p, old, A) with a size variable A and a growth test i >= A (or i < A) on a fill "
+                  "index i; reassigning A on the growing edge is taken to make room (the new size expression is not evaluated)",
+                  "stores with any other index are counted undecided"],
     "R-ALLOC.blockmove": ["function-level pairing (not per path); parameter objects only"],
     "R-NORM": ["the classification of mpn routines into 'loses at most one high limb' and 'can cancel any number' assumes normalised inputs and exact "
                "operand sizes (the library's calling convention); callees outside the table and sites without a preceding mpn writer are undecided"],
